@@ -31,6 +31,13 @@ def gen_cases(tier, seed, configs):
             present = sorted(set(i >> (D * (H - 1 - l)) for i in leaves))
             body.append("find cell %d %s" % (l, " ".join(str(i) for i in probe_indices(r, D, l, present))))
         body.append("find leaf %s" % " ".join(str(i) for i in probe_indices(r, D, H - 1, leaves)))
+        # the in-group lookups the operators use: by index and by parent index, on every group of a level
+        for l in sorted(set([H - 1, r.randrange(H), r.randrange(H)])):
+            present = sorted(set(i >> (D * (H - 1 - l)) for i in leaves))
+            body.append("find ingroup %d %s" % (l, " ".join(str(i) for i in probe_indices(r, D, l, present, 60))))
+            if l >= 1:
+                parents = sorted(set(i >> D for i in present))
+                body.append("find parent %d %s" % (l, " ".join(str(i) for i in probe_indices(r, D, l - 1, parents, 60))))
         cases.append(corefam.make_case("c16-%d" % k, D, H, periodic, parts, bs, mode, body, {"kind": kind}))
     return cases
 
@@ -38,8 +45,27 @@ def gen_cases(tier, seed, configs):
 def oracle(case, lines):
     groups, pgroups = C07.parse_structure(core.section(lines, "S "))
     bad = []
+    D = case["D"]
     for ln in core.section(lines, "F "):
         t = ln.split()
+        if t[1] in ("Q", "G", "H"):
+            if t[1] == "H":
+                lvl, g, idx, rest = None, int(t[2]), int(t[3]), t[4]
+                gs = [[l[0] for l in p["leaves"]] for p in pgroups]
+            else:
+                lvl, g, idx, rest = int(t[2]), int(t[3]), int(t[4]), t[5]
+                gs = [gg["cells"] for gg in groups.get(lvl, [])]
+            if not 0 <= g < len(gs):
+                bad.append(("C16:ingroup", "in-group lookup reported for a group that does not exist: %s" % ln))
+                continue
+            keys = [c >> D for c in gs[g]] if t[1] == "Q" else gs[g]
+            want = keys.index(idx) if idx in keys else None            # first position
+            got = None if rest == "none" else int(rest)
+            if got != want:
+                what = "parent index" if t[1] == "Q" else "index"
+                bad.append(("C16:ingroup-" + ("parent" if t[1] == "Q" else "index"),
+                            "in-group lookup by %s %d in group %d of level %s returned %r, the group's %s give %r" % (what, idx, g, lvl, got, "parents" if t[1] == "Q" else "cells", want)))
+            continue
         if t[1] == "C":
             lvl, idx, rest = int(t[2]), int(t[3]), t[4:]
             gs = [g["cells"] for g in groups.get(lvl, [])]
